@@ -443,6 +443,8 @@ def se_option(step, mm, ns, fast):
     ws = None
     if step["mode"] == 1 and step.get("custom") is not None:
         ws = [np.array(step["custom"][j * mm * mm:(j + 1) * mm * mm], dtype=np.float64).reshape(mm, mm) for j in range(ns)]
+        if step.get("wview"):                      # weight matrices handed over as non-contiguous views
+            ws = [strided(w_) for w_ in ws]
     return cls(mode_weight=MODES[step["mode"]], weights=ws)
 
 
@@ -480,6 +482,29 @@ def se_state(obj, fast):
     return w, e
 
 
+def strided(a):
+    """the same numbers as a NON-CONTIGUOUS view (every second element / column of a bigger buffer)"""
+    a = np.asarray(a, dtype=np.float64)
+    if a.ndim == 1:
+        buf = np.full(2 * a.shape[0], 7.0); buf[::2] = a
+        return buf[::2]
+    buf = np.full((a.shape[0], 2 * a.shape[1]), 7.0); buf[:, ::2] = a
+    return buf[:, ::2]
+
+
+def variants_check(viol, case, k, objs, v, ref):
+    """the same point handed over as a non-contiguous view, and validate=True: results must not change
+    objs: [(name, object, has_hessian)], ref: {name: (value, gradient)}"""
+    vv = strided(v)
+    for name, obj, _ in objs:
+        val0, grad0 = ref[name]
+        sc = 1.0 + abs(val0)
+        for what, val, grad in (("array-layout-changes-result", float(obj.value(vv)), fl(obj.gradient(vv))),
+                                ("validate-changes-result", float(obj.value(v, validate=True)), fl(obj.gradient(v, validate=True)))):
+            if abs(val - val0) > 1e-12 * sc or not vec_close(grad, grad0, 1e-12):
+                viol(name, what, "step %d: value %r / gradient differ from the plain call (value %r)" % (k, val, val0), case)
+
+
 class Fired:
     """ctx.violation wrapper that remembers whether a violation was reported (to avoid reporting one defect twice)"""
     def __init__(self, ctx, sub):
@@ -515,6 +540,8 @@ def chk_se_qt(ctx, case):
             label = "%s-%s-%s%s" % (case["exp"].split("-")[0], MODES.get(mode, "setter"), "fresh" if k == 0 else "reused",
                                     "" if step.get("opt", "new") == "new" else "-%s-option-%s-data" % (step["opt"], step.get("dat", "new")))
             data = [(int(step["nd"][j]), np.array(step["q"][j * mm:(j + 1) * mm], dtype=np.float64)) for j in range(ns)]
+            if case.get("layout") == "view":         # empirical distributions handed over as non-contiguous views
+                data = [(n_, strided(q_)) for n_, q_ in data]
             data_changed = last_data is not None and last_data != (list(step["nd"]), list(step["q"]))
             if mode != 5:
                 last_data = (list(step["nd"]), list(step["q"]))
@@ -586,6 +613,8 @@ def chk_se_qt(ctx, case):
                 hess_raises = True
             if not hess_raises:
                 viol(SITE_SE_FAST, "model-mismatch:hessian-implemented", "fast hessian no longer raises NotImplementedError", case)
+            variants_check(viol, case, k, [("WeightedProbabilityBasedSquaredError", G, True), ("StandardQTomographyBasedWeightedProbabilityBasedSquaredError", Fs, False)],
+                           v, {"WeightedProbabilityBasedSquaredError": (g_val, g_grad), "StandardQTomographyBasedWeightedProbabilityBasedSquaredError": (f_val, f_grad)})
             # ---- (a) formulas with the implementation's own current weights / cache (exact dyadic inputs)
             mv_, mg, mh = m_se(m, ns, mm, nv, A, b, q, case["v"], gw)
             if not (rel_close(g_val, mv_, TOL) and vec_close(g_grad, mg, TOL) and vec_close(fl(g_hess), mh, TOL)):
@@ -642,6 +671,7 @@ def gen_step(rng, e, mode):
     st = {"mode": mode, "nd": nd, "q": q, "custom": None}
     if mode in (1, 5):
         st["custom"] = rand_wmats(rng, ns, mm)
+        st["wview"] = rng.random() < 0.3
     return st
 
 
@@ -726,7 +756,7 @@ def gen_se_qt(ctx, n):
             for st in steps_:
                 if st.get("custom") is not None:
                     st["custom"] = [0.0] * len(st["custom"]) if pl["zero"] == "all" else [0.0] * mm2 + list(rand_wmats(rng, e["ns"], e["m"]))[mm2:]
-        c = {"exp": pl["exp"], "steps": steps_,
+        c = {"exp": pl["exp"], "steps": steps_, "layout": "view" if rng.random() < 0.3 else "plain",
              "v": rand_point(rng, e, rng.random() < 0.5), "h": [dy(rng, -1, 1, 16) for _ in range(e["nv"])]}
         cases.append(c)
     return cases
@@ -739,17 +769,17 @@ def sub_se_qt(ctx):
 
 
 # ================================================================== relative entropy (callables)
-def in_band(ps, qs):
+def in_band(ps, qs, epsq=EPS, epsp=EPS):
     """any clipping decision within the ambiguity band of its threshold?"""
     for p, q in zip(ps, qs):
         # EXACTLY at a threshold (q == eps_q or p == eps_p as floats) is a deterministic decision and IS compared
-        if q != EPS and abs(q - EPS) < 1e-12:
+        if q != epsq and abs(q - epsq) < 1e-12:
             return True
-        if q >= EPS:
-            if p != EPS and abs(p - EPS) < 1e-12:
+        if q >= epsq:
+            if p != epsp and abs(p - epsp) < 1e-12:
                 return True
-            pr = max(p, EPS)
-            if abs(q / pr - EPS) < 1e-12:
+            pr = max(p, epsp)
+            if abs(max(q, epsq) / pr - epsp) < 1e-12:
                 return True
     return False
 
@@ -925,6 +955,8 @@ def chk_re_qt(ctx, case):
             q = list(step["q"])
             oid = step.get("oid", k)
             data = [(int(step["nd"][j]), np.array(q[j * mm:(j + 1) * mm], dtype=np.float64)) for j in range(ns)]
+            if case.get("layout") == "view":
+                data = [(n_, strided(q_)) for n_, q_ in data]
             ws = step.get("w")
             kind = step["kind"]          # "option" | "setter"
             w0f, ew0f = re_state(Fs)
@@ -992,6 +1024,9 @@ def chk_re_qt(ctx, case):
                     viol("StandardQTomographyBasedWeightedRelativeEntropy", "model-mismatch:hessian-implemented", "fast hessian no longer raises", case)
                 except NotImplementedError:
                     pass
+            if f_err is None:
+                variants_check(viol, case, k, [("WeightedRelativeEntropy", G, True), ("StandardQTomographyBasedWeightedRelativeEntropy", Fs, False)],
+                               v, {"WeightedRelativeEntropy": (g_val, g_grad), "StandardQTomographyBasedWeightedRelativeEntropy": (f_val, f_grad)})
             # ---- the property: the configured weights take effect; fast = generic
             n0 = viol.n
             sc_, sa, sg, sh = m_re_parse(m.call("c12.re", [ns, mm, nv, 0 if spec_w is None else 1], [EPS, EPS] + A + b + q + list(case["v"]) + ([] if spec_w is None else list(spec_w))), N, nv)
@@ -1087,7 +1122,7 @@ def gen_re_qt(ctx, n):
             if kind == "option":
                 last = d
             steps.append(d)
-        cases.append({"exp": pl["exp"], "ctor_w": rand_wvec(rng, ns) if pl["ctor"] else None, "steps": steps,
+        cases.append({"exp": pl["exp"], "ctor_w": rand_wvec(rng, ns) if pl["ctor"] else None, "steps": steps, "layout": "view" if rng.random() < 0.3 else "plain",
                       "v": rand_point(rng, e, rng.random() < 0.35), "h": [dy(rng, -1, 1, 16) for _ in range(e["nv"])]})
     return cases
 
@@ -1209,7 +1244,7 @@ def chk_mixed_counts(ctx, case):
             if False in res:
                 val, grad, hess = res[False]
                 if not (rel_close(val, sv, 1e-6) and vec_close(grad, sg, 1e-6) and vec_close(hess, sh, 1e-6)):
-                    ctx.violation("mixed_counts", SITE_MIX_GEN, "mixed-outcome-counts-equal-slices",
+                    ctx.violation("mixed_counts", SITE_MIX_GEN, "mixed-outcome-counts-value-neq-formula",
                                   "generic squared error, outcome counts %s: value %r, sum over schedules of the defining formula %r" % (sizes, val, float(sv)), case)
             if False in res and True in res:
                 if not (rel_close(res[True][0], res[False][0], 1e-7) and vec_close(res[True][1], res[False][1], 1e-7)):
@@ -1241,7 +1276,7 @@ def chk_mixed_counts(ctx, case):
             if False in res:
                 val, grad, hess = res[False]
                 if abs(val - sval) > 1e-8 * (1.0 + smag) or not vec_close(grad, sg, 1e-8) or not vec_close(hess, sh, 1e-8):
-                    ctx.violation("mixed_counts", SITE_MIX_GEN, "mixed-outcome-counts-equal-slices",
+                    ctx.violation("mixed_counts", SITE_MIX_GEN, "mixed-outcome-counts-value-neq-formula",
                                   "generic relative entropy, outcome counts %s: value %r, sum_j w_j sum_x q ln(q/p) = %r" % (sizes, val, sval), case)
             if False in res and True in res:
                 if abs(res[True][0] - res[False][0]) > 1e-8 * (1.0 + smag) or not vec_close(res[True][1], res[False][1], 1e-8):
@@ -1286,16 +1321,18 @@ def chk_fns(ctx, case):
             mm, nv = case["m"], case["nv"]
             q = np.array(case["q"], dtype=np.float64); p = np.array(case["p"], dtype=np.float64)
             G = np.array(case["G"], dtype=np.float64).reshape(mm, nv); HP = np.array(case["HP"], dtype=np.float64).reshape(nv, nv, mm)
-            band = in_band(fl(p), fl(q))
+            eq_ = float(case.get("epsq", EPS)); ep_ = float(case.get("epsp", EPS))       # non-default clipping thresholds
+            kw = {} if (eq_ == EPS and ep_ == EPS) else {"eps_q": eq_, "eps_p": ep_}
+            band = in_band(fl(p), fl(q), eq_, ep_)
             neg = bool(np.any(p < -1e-13))
-            ctx.count("fns", key=("ent", tuple(case["q"]), tuple(case["p"])), nontrivial=not band, label="entropy-m%d%s%s" % (mm, "-negp" if neg else "", "-inband" if band else ""))
+            ctx.count("fns", key=("ent", tuple(case["q"]), tuple(case["p"])), nontrivial=not band, label="entropy-m%d%s%s%s" % (mm, "-negp" if neg else "", "-inband" if band else "", "-eps" if kw else ""))
             if band:
                 return
-            c, a, mg, mh = m_re_parse(m.call("c12.re_at", [1, mm, nv, 0, 1], [EPS, EPS] + fl(p) + fl(q) + fl(G) + fl(HP)), mm, nv)
+            c, a, mg, mh = m_re_parse(m.call("c12.re_at", [1, mm, nv, 0, 1], [eq_, ep_] + fl(p) + fl(q) + fl(G) + fl(HP)), mm, nv)
             mval, mag = ln_sum(c, a)
-            val = float(ent.relative_entropy(q, p, is_valid_required=False))
-            grad = fl(ent.gradient_relative_entropy_2nd(q, p, G, is_valid_required=False))
-            hess = ent.hessian_relative_entropy_2nd(q, p, G, HP.transpose(2, 0, 1), is_valid_required=False)
+            val = float(ent.relative_entropy(q, p, is_valid_required=False, **kw))
+            grad = fl(ent.gradient_relative_entropy_2nd(q, p, G, is_valid_required=False, **kw))
+            hess = ent.hessian_relative_entropy_2nd(q, p, G, HP.transpose(2, 0, 1), is_valid_required=False, **kw)
             hess = fl(hess) if not np.isscalar(hess) else [0.0] * (nv * nv)
             if abs(val - mval) > TOL * (1.0 + mag):
                 ctx.violation("fns", "entropy.relative_entropy", "value", "%r vs model %r" % (val, mval), case)
@@ -1304,14 +1341,14 @@ def chk_fns(ctx, case):
             if not vec_close(hess, mh, TOL):
                 ctx.violation("fns", "entropy.hessian_relative_entropy_2nd", "value", "Hessian differs from model", case)
             # vector forms against the fast model (A := G, b := p, v := 0)
-            rr = m.call("c12.re_fast", [mm, nv, 0], [EPS, EPS] + fl(G) + fl(p) + fl(q) + [0.0] * nv)
+            rr = m.call("c12.re_fast", [mm, nv, 0], [eq_, ep_] + fl(G) + fl(p) + fl(q) + [0.0] * nv)
             fc, fa, fg, _ = m_re_parse(rr, mm, nv, hess=False)
-            vec = fl(ent.relative_entropy_vector(q, p, is_valid_required=False))
+            vec = fl(ent.relative_entropy_vector(q, p, is_valid_required=False, **kw))
             getcontext().prec = 50
             exp_vec = [float(dec(ci) * dln(ai)) if ci != 0 else 0.0 for ci, ai in zip(fc, fa)]
             if not vec_close(vec, exp_vec, TOL):
                 ctx.violation("fns", "entropy.relative_entropy_vector", "value", "%s vs model %s" % (vec, exp_vec), case)
-            gvec = np.array(ent.gradient_relative_entropy_2nd_vector(q, p, G, is_valid_required=False))
+            gvec = np.array(ent.gradient_relative_entropy_2nd_vector(q, p, G, is_valid_required=False, **kw))
             if not vec_close(fl(gvec.sum(axis=0)), fg, TOL):
                 ctx.violation("fns", "entropy.gradient_relative_entropy_2nd_vector", "value", "column sums differ from model", case)
             # fast = generic on non-negative data (theorem C12_re_fast_eq_generic), evaluated on the implementation
@@ -1320,14 +1357,14 @@ def chk_fns(ctx, case):
             # validation branch: negative p beyond atol must raise when is_valid_required
             st_all = "ok"
             for qq, pp in zip(fl(q), fl(p)):
-                if qq >= EPS:
-                    st, _ = m.try_call("c12.round_varz", [1], [1e-13, pp, EPS])
+                if qq >= eq_:
+                    st, _ = m.try_call("c12.round_varz", [1], [1e-13, pp, ep_])
                     if st == "err":
                         st_all = "err"
             if any(-1e-13 * 1.01 <= pp <= -1e-13 * 0.99 for pp in fl(p)):
                 return
             try:
-                ent.relative_entropy(q, p, is_valid_required=True); impl = "ok"
+                ent.relative_entropy(q, p, is_valid_required=True, **kw); impl = "ok"
             except ValueError:
                 impl = "err"
             if impl != st_all:
@@ -1402,8 +1439,11 @@ def gen_fns(ctx, n):
             q[rng.randrange(mm)] = EPS                                # exactly at the threshold eps_q (branch "q >= eps_q" taken)
         if rng.random() < 0.12:
             p[rng.randrange(mm)] = EPS                                # exactly at the threshold eps_p
-        cases.append({"kind": "entropy", "m": mm, "nv": nv, "q": q, "p": p, "G": [dy(rng, -2, 2, 8) for _ in range(mm * nv)],
-                      "HP": [dy(rng, -1, 1, 4) for _ in range(nv * nv * mm)]})
+        c_ = {"kind": "entropy", "m": mm, "nv": nv, "q": q, "p": p, "G": [dy(rng, -2, 2, 8) for _ in range(mm * nv)],
+              "HP": [dy(rng, -1, 1, 4) for _ in range(nv * nv * mm)]}
+        if rng.random() < 0.25:                                       # explicit, non-default thresholds (exactly representable ones too)
+            c_["epsq"] = rng.choice([1e-6, 0.015625, 0.25]); c_["epsp"] = rng.choice([1e-6, 0.015625, 0.125])
+        cases.append(c_)
     for i in range(max(8, n // 2)):
         mm = 2 + i % 4
         nd = rng.choice([100, 400, 1000, 10000, rng.randint(10, 5000)])
@@ -1459,6 +1499,81 @@ SUBS = [("se_callables", sub_se_callables), ("se_qt", sub_se_qt), ("re_callables
         ("mixed_counts", sub_mixed_counts), ("fns", sub_fns), ("simple_quadratic", sub_simple_quadratic)]
 FNS = {"se_callables": chk_se_callables, "se_qt": chk_se_qt, "re_callables": chk_re_callables, "re_qt": chk_re_qt,
        "mixed_counts": chk_mixed_counts, "fns": chk_fns, "simple_quadratic": chk_simple_quadratic}
+
+
+# ================================================================== explicit arguments vs the object's own configuration
+def chk_config_args(ctx, case):
+    """fresh objects of the four classes, constructed with a num_var that is NOT the experiment's (None / too small / too
+    large), configured with every combination of is_gradient_required / is_hessian_required: the value is the model's whatever
+    the flags, gradient / Hessian are the model's (with the experiment's number of variables) when they were required"""
+    from quara.loss_function.weighted_probability_based_squared_error import (
+        WeightedProbabilityBasedSquaredError, WeightedProbabilityBasedSquaredErrorOption)
+    from quara.loss_function.standard_qtomography_based_weighted_probability_based_squared_error import (
+        StandardQTomographyBasedWeightedProbabilityBasedSquaredError, StandardQTomographyBasedWeightedProbabilityBasedSquaredErrorOption)
+    from quara.loss_function.weighted_relative_entropy import WeightedRelativeEntropy, WeightedRelativeEntropyOption
+    from quara.loss_function.standard_qtomography_based_weighted_relative_entropy import (
+        StandardQTomographyBasedWeightedRelativeEntropy, StandardQTomographyBasedWeightedRelativeEntropyOption)
+    m = ctx.get_model()
+    e = get_exp(case["exp"]); qt = e["qt"]; ns, mm, nv = e["ns"], e["m"], e["nv"]; N = ns * mm
+    A = fl(e["A"]); b = fl(e["b"]); v = np.array(case["v"], dtype=np.float64); q = list(case["q"])
+    data = [(int(case["nd"][j]), np.array(q[j * mm:(j + 1) * mm], dtype=np.float64)) for j in range(ns)]
+    gr, he = case["flags"]; ctor_nv = {"none": None, "small": max(nv - 1, 1), "large": nv + 2, "right": nv}[case["ctor_nv"]]
+    p = e["A"] @ v + e["b"]
+    sv, sg, sh = m_se(m, ns, mm, nv, A, b, q, case["v"], None)
+    rc, ra, rg, rh = m_re_parse(m.call("c12.re", [ns, mm, nv, 0], [EPS, EPS] + A + b + q + list(case["v"])), N, nv)
+    rval, rmag = ln_sum(rc, ra)
+    band = in_band(fl(p), q)
+    wq = quiet()
+    try:
+        for name, cls, opt, fast, fam in (
+                ("WeightedProbabilityBasedSquaredError", WeightedProbabilityBasedSquaredError, WeightedProbabilityBasedSquaredErrorOption("identity"), False, "se"),
+                ("StandardQTomographyBasedWeightedProbabilityBasedSquaredError", StandardQTomographyBasedWeightedProbabilityBasedSquaredError,
+                 StandardQTomographyBasedWeightedProbabilityBasedSquaredErrorOption("identity"), True, "se"),
+                ("WeightedRelativeEntropy", WeightedRelativeEntropy, WeightedRelativeEntropyOption("identity"), False, "re"),
+                ("StandardQTomographyBasedWeightedRelativeEntropy", StandardQTomographyBasedWeightedRelativeEntropy,
+                 StandardQTomographyBasedWeightedRelativeEntropyOption("identity"), True, "re")):
+            if fam == "re" and band:
+                continue
+            ctx.count("config_args", key=("cfa", name, case["exp"], tuple(case["flags"]), case["ctor_nv"], tuple(case["v"])), nontrivial=True,
+                      label="%s-nv_%s-g%d-h%d" % ("fast" if fast else "generic", case["ctor_nv"], gr, he))
+            obj = cls(ctor_nv)
+            obj.set_from_standard_qtomography_option_data(qt, opt, data, gr, he and not fast)
+            val = float(obj.value(v))
+            ok = rel_close(val, sv, TOL) if fam == "se" else abs(val - rval) <= TOL * (1.0 + rmag)
+            if not ok:
+                ctx.violation("config_args", name, "value-depends-on-flags-or-constructor-argument",
+                              "flags (gradient %s, hessian %s), constructor num_var %s: value %r, model %r" % (gr, he, ctor_nv, val, float(sv) if fam == "se" else rval), case)
+            if not obj.on_value:
+                ctx.violation("config_args", name, "on_value-false-after-configuration", "on_value is False after the configuration", case)
+            if gr:
+                grad = fl(obj.gradient(v))
+                if not vec_close(grad, sg if fam == "se" else rg, TOL):
+                    ctx.violation("config_args", name, "gradient-depends-on-flags-or-constructor-argument",
+                                  "constructor num_var %s, experiment has %d variables: gradient has %d entries / differs from the model" % (ctor_nv, nv, len(grad)), case)
+                if not fast and he:
+                    hess = fl(obj.hessian(v))
+                    if not vec_close(hess, sh if fam == "se" else rh, TOL):
+                        ctx.violation("config_args", name, "hessian-depends-on-flags-or-constructor-argument",
+                                      "constructor num_var %s: Hessian has %d entries / differs from the model" % (ctor_nv, len(hess)), case)
+    finally:
+        wq.__exit__(None, None, None)
+
+
+def sub_config_args(ctx):
+    rng = ctx.rng
+    exps = ["qst-2-T", "qst-3-T", "povmt-2-F", "qpt-2-T", "qmpt-2-F", "povmt-4-T"]
+    cases = []
+    combos = [((True, True), "none"), ((True, False), "small"), ((False, False), "large"), ((True, True), "large"), ((False, False), "none"), ((True, False), "right")]
+    for i in range(ctx.n(6, 60)):
+        e = get_exp(exps[i % len(exps)])
+        st = gen_step(rng, e, 0)
+        fl_, cn = combos[i % len(combos)] if i < len(combos) else (rng.choice([(True, True), (True, False), (False, False)]), rng.choice(["none", "small", "large", "right"]))
+        cases.append({"exp": exps[i % len(exps)], "flags": list(fl_), "ctor_nv": cn, "nd": st["nd"], "q": st["q"], "v": rand_point(rng, e, False)})
+    ctx.sample("config_args", {k: v for k, v in cases[0].items() if k != "q"})
+    ctx.run_cases("config_args", chk_config_args, cases)
+
+
+SUBS.append(("config_args", sub_config_args)); FNS["config_args"] = chk_config_args
 
 
 # ================================================================== option constructors (decision table, executed)
